@@ -534,7 +534,14 @@ pub(super) fn simplify(
     value: &ast::TypedPattern,
 ) -> Result<Pattern, Error> {
     match value {
-        ast::Pattern::Int { value, .. } => Ok(Pattern::Literal(Literal::Int(value.clone()))),
+        ast::Pattern::Int { value, .. } => Ok(Pattern::Literal(Literal::Int(
+            // Literals are told apart by the number they denote, not by how it was spelt:
+            // `-0` is `0`, and `01_000` is `1_000`.
+            value
+                .parse::<num_bigint::BigInt>()
+                .map(|number| number.to_string())
+                .unwrap_or_else(|_| value.clone()),
+        ))),
         ast::Pattern::ByteArray { value, .. } => {
             Ok(Pattern::Literal(Literal::ByteArray(value.clone())))
         }
